@@ -93,7 +93,7 @@ def gen_case(seed):
     free = typeof(node)[0]
     if free:
         node = ("red", s, node, tuple((n, d[0]) for n, d in sorted(free.items())))
-    return {"sem": sem, "ast": node, "optimizer": src.pick([False, False, True])}
+    return {"sem": sem, "ast": signs(node, src), "optimizer": src.pick([False, False, True])}
 
 
 def gen_case2(seed):
@@ -160,7 +160,21 @@ def gen_case2(seed):
         fnames = [n for n in fnames if n not in inner]
     if fnames:
         node = ("red", s, node, tuple((n, free[n][0]) for n in fnames))
-    return {"sem": sem, "ast": node, "optimizer": src.pick([False, False, True])}
+    return {"sem": sem, "ast": signs(node, src), "optimizer": src.pick([False, False, True])}
+
+
+def signs(node, src):
+    """With probability 0.4 some leaf entries become negative (both semirings are defined there; the plate adjoints
+    divide by the leaf's own entries)."""
+    plated = any(n[0] == "red" and n[1] in ("mul",) for n in walk(node))
+    if src.pick([0, 1, 1, 1] if plated else [0, 0, 1, 0, 1]) == 0:
+        return node
+    k = src.pick([2, 3, 4])
+    for path, sub in list(positions(node)):
+        if sub[0] == "ten" and sub[3] == "real" and src.pick([True, False]):
+            data = tuple(-v if (i + len(path)) % k == 0 else v for i, v in enumerate(sub[4]))
+            node = replace_at(node, path, sub[:4] + (data,) + sub[5:])
+    return node
 
 
 class C11(Prop):
@@ -177,7 +191,7 @@ class C11(Prop):
         "each leaf tensor occurs once (fresh arrays), so the root is multilinear in the entries of a leaf",
         "an expression the adjoint tape rejects (NotImplementedError / ValueError) is a decline",
     )
-    cases = {"quick": 1000, "thorough": 40000}
+    cases = {"quick": 2400, "thorough": 40000}
 
     def strategy(self, tier):
         return st.one_of(st.integers(0, 2**40).map(robust_gen(gen_case)), st.integers(0, 2**40).map(robust_gen(gen_case2)), st.integers(0, 2**40).map(robust_gen(gen_case2)))
@@ -233,6 +247,14 @@ class C11(Prop):
                 m = m[1]
             if len(names) != len(set(names)):
                 return True
+            # the same with other nodes in between: a substitution below n (e.g. in one factor of a product that n
+            # renames) whose value mentions a variable that a value of n mentions too
+            mine = [x for k, v in n[2] if k in typeof(n[1])[0] for x in value_names(v)]
+            for d in walk(n[1]):
+                if d[0] == "sub" and d is not n:
+                    inp = typeof(d[1])[0]
+                    if any(x in mine for k, v in d[2] if k in inp for x in value_names(v)):
+                        return True
         return False
 
     known_predicates = {
@@ -273,7 +295,7 @@ class C11(Prop):
         stt.count("sem:" + s + "/" + p)
         if case["optimizer"]:
             stt.count("with-optimizer")
-        leaves = Leaves()
+        leaves = Leaves(share=False)
         try:
             with I.reflect:  # keep Subs / Cat / Slice wrappers as term nodes
                 expr = build(node, leaves)
